@@ -27,7 +27,10 @@ N_PERT = 70
 
 
 def cases(tier, seed):
-    return D.spec_cases(tier, seed, None, 440, 3500, "c17")
+    out = D.spec_cases(tier, seed, None, 440, 3500, "c17")
+    # appended classes of vlib/gen2.py (added after the generator freeze; see DESIGN.md 2.2)
+    from vlib import gen2
+    return out + gen2.appended(tier, seed, "c17", ['A5', 'A1', 'A2', 'A5', 'A3', 'A6'], 108, 720)
 
 
 def recompute(spec, fl, seq):
